@@ -502,6 +502,8 @@ pub fn run_shutdown(focus: &'static str, seed: u64, index: u64) -> CaseOut {
 
 // ------------------------------------------------------------------------------------------------ C15: stalled consumer
 
+static PANICKING_CLOSURES: AtomicU64 = AtomicU64::new(0);
+
 pub fn run_stall(focus: &'static str, seed: u64, index: u64) -> CaseOut {
     let mut rng = rt::rng_for(seed, index, 0x57);
     // sizes down to 1, the defaults (32 x 64), and sizes beyond any internal chunking (a buffer of 300 or 1000 records, a pool of 300 or 1024 buffers)
@@ -567,6 +569,15 @@ pub fn run_stall(focus: &'static str, seed: u64, index: u64) -> CaseOut {
             let mut lookups = 0u64;
             for n in 0..reads_target {
                 let key = if rng.chance(4, 5) { rng.range(1, 4) } else { rng.range(50, 60) };
+                // now and then the client's mapping function panics under the reference guard (the panic is caught here, as an application
+                // would): the lookup was counted as a hit by then, so its access record must exist all the same
+                if n % 11 == 5 {
+                    let outcome = std::panic::catch_unwind(std::panic::AssertUnwindSafe(|| cache.map_get_ref(&key, |_stored| -> u64 { panic!("harness: a mapping function that panics") })));
+                    lookups += 1;
+                    if outcome.is_err() { hits += 1; PANICKING_CLOSURES.fetch_add(1, Ordering::Relaxed); }
+                    done_reads.fetch_add(1, Ordering::Relaxed);
+                    continue;
+                }
                 let got = read(&cache, (n % 7) as usize, key);
                 lookups += 1;
                 if got.is_some() { hits += 1; }
@@ -578,6 +589,7 @@ pub fn run_stall(focus: &'static str, seed: u64, index: u64) -> CaseOut {
     // readers must finish although the consumer is stalled: decided by completion vs. the logical hang condition
     let total_reads = reads_target * readers as u64;
     let finished = rt::wait_until("readers to finish while the consumer is stalled", || done_reads.load(Ordering::Relaxed) >= total_reads);
+    counts.add("hits_whose_mapping_function_panicked", PANICKING_CLOSURES.swap(0, Ordering::Relaxed));
     let stalled = variant == 0 && sched().is_holding(Site::ConsumerBeforeApply);
     if stalled { counts.inc("runs_with_the_consumer_held_at_the_gate"); counts.add("reads_performed_during_a_stall", done_reads.load(Ordering::Relaxed)); }
     if let Err(waited) = finished {
